@@ -335,6 +335,28 @@ func init() {
 			fr.i.ex.Note(concreteString(args[0]))
 			return nil
 		},
+		"symInSet": func(fr *frame, args []value) value {
+			set := concreteString(args[1])
+			s, ok := args[0].(sym)
+			if !ok {
+				b := args[0].(byte)
+				for k := 0; k < len(set); k++ {
+					if set[k] == b {
+						return true
+					}
+				}
+				return false
+			}
+			p := s.t.P
+			acc := p.False
+			for k := 0; k < len(set); k++ {
+				acc = p.Or(acc, p.Eq(s.t, p.Const(8, uint64(set[k]))))
+			}
+			return norm(acc, types.Bool)
+		},
+		"symAnd": func(fr *frame, args []value) value { return andv(args[0], args[1]) },
+		"symOr":  func(fr *frame, args []value) value { return notv(andv(notv(args[0]), notv(args[1]))) },
+		"symNot": func(fr *frame, args []value) value { return notv(args[0]) },
 		"symIsSymbolic": func(fr *frame, args []value) value {
 			return true
 		},
